@@ -317,7 +317,26 @@ func (g *Gen) Hostile() (kind string, body []byte) {
 		b["criteria"] = cs
 		return "many-criteria", JSONBytes(b)
 	}
-	switch r.Intn(22) {
+	switch r.Intn(27) {
+	case 22, 23, 24, 25, 26:
+		// a field at ANY depth gets a value of another JSON type (custom decoding of nested values
+		// runs while the body is bound, before the handler's own safety net is in place)
+		b := CloneJ(q.Body).(map[string]interface{})
+		var nodes []treeNode
+		var keys []string
+		var vals []interface{}
+		collectNodes(b, "", func(interface{}) {}, &nodes, &keys, &vals)
+		if len(nodes) < 2 {
+			return "json-scalar", []byte("{}")
+		}
+		nd := nodes[1+r.Intn(len(nodes)-1)]
+		variants := []interface{}{[]interface{}{}, []interface{}{1.0}, []interface{}{1.0, 2.0, 3.0}, []interface{}{0.0, 5.0}, "x", 1.5, true, nil, J{}, []interface{}{"a"}, J{"min": "x"}}
+		nd.set(variants[r.Intn(len(variants))])
+		short := nd.path
+		if len(short) > 40 {
+			short = short[len(short)-40:]
+		}
+		return "mistyped-nested:" + short, JSONBytes(b)
 	case 17, 18, 19, 20, 21:
 		// well-formed JSON, 1-3 random structural edits anywhere in the request tree: keys removed,
 		// unexpected keys added, array elements dropped / duplicated, values replaced by values
